@@ -309,6 +309,9 @@ pub struct CaseOutcome {
 thread_local! {
     static PANIC_BT: std::cell::RefCell<Option<String>> = const { std::cell::RefCell::new(None) };
 }
+/// message and backtrace of the most recent panic on any thread: lopdf's parallel reader panics on a
+/// pool thread and the pool re-raises the payload on the caller without running the hook again
+pub static ANY_THREAD_PANIC: Mutex<Option<(String, String)>> = Mutex::new(None);
 
 pub fn install_worker_panic_hook() {
     std::panic::set_hook(Box::new(|info| {
@@ -323,6 +326,9 @@ pub fn install_worker_panic_hook() {
         crate::props::LAST_PANIC.with(|p| *p.borrow_mut() = Some(format!("{} @ {}", msg, loc)));
         let bt = std::backtrace::Backtrace::force_capture().to_string();
         if std::env::var("VH_DEBUG_BT").is_ok() { eprintln!("{}", bt); }
+        if let Ok(mut g) = ANY_THREAD_PANIC.lock() {
+            *g = Some((format!("{} @ {}", msg, loc), bt.clone()));
+        }
         PANIC_BT.with(|p| *p.borrow_mut() = Some(bt));
     }));
 }
@@ -342,15 +348,22 @@ pub fn run_monitored(len: usize, f: impl FnOnce()) -> CaseOutcome {
     let t0 = thread_cpu_ms();
     let w = alloc_begin(req_limit);
     PANIC_BT.with(|p| *p.borrow_mut() = None);
+    if let Ok(mut g) = ANY_THREAD_PANIC.lock() {
+        *g = None;
+    }
     let r = crate::props::catch(f);
     let rep = alloc_end(w);
     let cpu_ms = thread_cpu_ms().saturating_sub(t0);
     let panic = match r {
         Ok(()) => None,
-        Err(msg) => {
-            let bt = PANIC_BT.with(|p| p.borrow_mut().take()).unwrap_or_default();
-            Some((msg, lopdf_frames(&bt, 6)))
-        }
+        Err(msg) => match PANIC_BT.with(|p| p.borrow_mut().take()) {
+            Some(bt) => Some((msg, lopdf_frames(&bt, 6))),
+            // raised on a helper thread: the worker runs one case at a time, so the last panic is this one
+            None => match ANY_THREAD_PANIC.lock().ok().and_then(|mut g| g.take()) {
+                Some((m, bt)) => Some((m, lopdf_frames(&bt, 6))),
+                None => Some((msg, vec![])),
+            },
+        },
     };
     let mut alloc = None;
     if let Some((n, bt)) = rep.big {
